@@ -512,3 +512,51 @@ Fixpoint c04_nb_run (cfg : c04_nb_cfg) (sched : list (nat + nat * nat)) : option
   | inl p :: t => match c04_nb_post cfg p with None => None | Some c => c04_nb_run c t end
   | inr (q, p) :: t => match c04_nb_recv cfg q p with None => None | Some c => c04_nb_run c t end
   end.
+
+(* ---- dimension audit 2 --------------------------------------------------------------------------------------- *)
+(* includeSelf is a per-process constructor argument / setter: it may differ from process to process (incs[rank]);
+   buildRemote(includeSelf_) uses it for the own message and for the "nothing to communicate" test only *)
+Definition c04_build_incs (two ign : bool) (incs : list bool) (d : c04_decomp) (mode : option (list (list nat)))
+  : list (c04_res c04_rmap) :=
+  let P := length d in
+  let msgs := c04_msgs ign two d in
+  map (fun rank => let st := nth rank d ([], []) in
+                   c04_build_rank P rank two ign (nth rank incs false) (fst st) (snd st) (c04_arrivals P rank msgs mode))
+      (seq 0 P).
+
+(* the communicator comm_: a data member written by the constructor and by setIndexSets, read by buildRemote
+   (MPI_Comm_rank / MPI_Comm_size / every send and receive).  Communicators over the same P processes are named by a number:
+   0 the given one, 1 a duplicate (MPI_Comm_dup: same ranks), 2 ranks reversed (MPI_Comm_split, key = -rank),
+   3 ranks rotated (key = (rank + 1) mod P).  c04_comm_world k P i = the process (numbered as in communicator 0) that has
+   rank i in communicator k.  Index sets belong to processes; buildRemote sees them through the communicator's numbering. *)
+Definition c04_comm_world (k P i : nat) : nat :=
+  match k with
+  | 2 => P - 1 - i
+  | 3 => (i + P - 1) mod P
+  | _ => i
+  end.
+Definition c04_comm_view {A} (k : nat) (dflt : A) (l : list A) : list A :=
+  map (fun i => nth (c04_comm_world k (length l) i) l dflt) (seq 0 (length l)).
+(* buildRemote of all processes on communicator k; result and hints are indexed by the rank IN communicator k *)
+Definition c04_obj_buildf_comm (two : bool) (k : nat) (d : c04_decomp) (ign incself : bool) (hints : list (list nat))
+  : list (c04_res c04_rmap) :=
+  c04_obj_buildf two (c04_comm_view k ([], []) d) ign incself hints.
+
+Inductive c04_hopc :=
+| C04_CSetIndexSets (slot comm : nat) (hints : option (list (list nat)))   (* setIndexSets(S, T, comm [, neighbours]) *)
+| C04_COp (op : c04_hop).                                                  (* any other member: comm_ untouched *)
+
+Section ObjComm.
+  Variable result : Type.
+  Variable buildfc : nat -> c04_decomp -> bool -> bool -> list (list nat) -> result.
+  (* the object of Section Obj plus comm_; neighbourIds (c04_ob_hints) are indexed by the rank in comm_ *)
+  Record c04_sysc := C04_mksysc { c04_sc_sys : c04_sys result; c04_sc_comm : nat }.
+  Definition c04_hstepc (yc : c04_sysc) (op : c04_hopc) : c04_sysc :=
+    match op with
+    | C04_CSetIndexSets s k h =>      (* free(); source_ = ..; target_ = ..; comm_ = comm; firstBuild = true; setNeighbours(..) *)
+        C04_mksysc (c04_hstep result (buildfc k) (c04_sc_sys yc) (C04_HSetIndexSets s h)) k
+    | C04_COp o =>                    (* rebuild -> buildRemote reads comm_ *)
+        C04_mksysc (c04_hstep result (buildfc (c04_sc_comm yc)) (c04_sc_sys yc) o) (c04_sc_comm yc)
+    end.
+  Definition c04_hrunc (yc : c04_sysc) (ops : list c04_hopc) : c04_sysc := fold_left c04_hstepc ops yc.
+End ObjComm.
